@@ -36,17 +36,22 @@ def one(d):
 
 with ThreadPoolExecutor(4) as ex:
     results = list(ex.map(one, names))
-rows = []
 for d, meta, res in results:
     res['repo_head'] = repo_head
     meta['result'] = res
     json.dump(meta, open(os.path.join(d, 'meta.json'), 'w'), indent=1)
+    print(os.path.basename(d), res['verdict'])
+# the table is rebuilt from every meta.json (so a partial run keeps the other rows)
+rows = []
+for d in sorted(os.path.dirname(p) for p in glob.glob(os.path.join(here, 'seeded', '*', 'meta.json'))):
+    meta = json.load(open(os.path.join(d, 'meta.json')))
+    res = meta.get('result') or {}
     sig = '; '.join('%s: %s' % (k, ', '.join(v['signatures'][:3])) for k, v in res.get('checks', {}).items())
-    rows.append('| %s | %s | %s | %s |' % (os.path.basename(d), meta['property'], res['verdict'], sig))
-    print(rows[-1])
+    rows.append('| %s | %s | %s | %s | %s |' % (os.path.basename(d), meta['property'], res.get('verdict', 'not run'),
+                                             res.get('repo_head', ''), sig))
 with open(os.path.join(here, 'seeded', 'RESULTS.md'), 'w') as f:
-    f.write('# Seeded changes vs. quick checks (repo %s)\n\n' % repo_head)
+    f.write('# Seeded changes vs. quick checks\n\n')
     f.write('NEUTRALISED = the change no longer breaks the property on the repaired tree (its demo passes), '
             'because a cooperating defect it relied on was fixed.\n\n')
-    f.write('| seeded change | property | verdict | signatures reported |\n|---|---|---|---|\n')
+    f.write('| seeded change | property | verdict | repo HEAD | signatures reported |\n|---|---|---|---|---|\n')
     f.write('\n'.join(rows) + '\n')
